@@ -80,7 +80,7 @@ class JinjaEvaluator(expr_base.Evaluator):
     _regex_raw_block_pattern = "{% raw %}.*?{% endraw %}"
     _regex_raw_block_parser = re.compile(_regex_raw_block_pattern)
 
-    _jinja_env = jinja2.sandbox.SandboxedEnvironment(
+    _jinja_env = jinja2.sandbox.ImmutableSandboxedEnvironment(
         undefined=jinja2.StrictUndefined, trim_blocks=True, lstrip_blocks=True
     )
 
